@@ -7,7 +7,15 @@
       name, colours); [t0 : tsize] its initial size; [ops] a history over
       [Resize | EnableSwap | DisableSwap | EnableQueries | DisableQueries | SetRatio m |
        GetCellSize | GetCellRatio | GetColors k | GetNameVersion | IsOnKitty | GetTsc |
+       GetTscResize t |
        GetCellSizeAbort | GetCellRatioAbort | GetColorsAbort k | GetNameVersionAbort];
+      [GetTsc] is a call of a probe function decorated with [terminal_size_cached] whose
+      body reports the terminal's pixel size; [GetTscResize t] is such a call DURING
+      WHOSE BODY the terminal is resized to [t] (the body has looked at the terminal,
+      then the resize lands, then the body returns; if the entry serves the call the
+      body does not run and nothing is resized): EVERY theorem below that quantifies
+      over [ops] quantifies over histories with resizes landing inside memoised
+      computations at any position;
       the last four are the getters called with a fault armed inside [query_terminal]
       (KeyboardInterrupt / termios.error while the terminal's reply is awaited): if the
       call really queries the terminal the caller sees [raised] — an ABORTED
@@ -119,6 +127,45 @@ Theorem C15_size_cached_fresh :
     snd (step e s GetTsc) = view_ratio (fresh_tsc (tm s)).
 Proof. exact size_cached_fresh. Qed.
 Print Assumptions C15_size_cached_fresh.
+
+(** a resize that lands while the memoised body runs: the call itself answers with the
+    fresh value for the terminal it was made at ... *)
+Theorem C15_size_cached_fresh_resize_in_body :
+  forall e t0 ops t,
+    kitty_memo e = false ->
+    wf_sizes t0 (ops ++ [GetTscResize t]) = true -> px_ok e t0 (ops ++ [GetTscResize t]) ->
+    let s := run e t0 ops in
+    snd (step e s (GetTscResize t)) = view_ratio (fresh_tsc (tm s)).
+Proof. exact size_cached_fresh_resize_in_body. Qed.
+Print Assumptions C15_size_cached_fresh_resize_in_body.
+
+(** ... and the call AFTER it answers with the fresh value for the terminal as it is
+    then; when the body ran (one more body execution), that terminal is [t]: the value
+    computed for the old size while the resize landed is never served for the new one *)
+Theorem C15_call_after_resize_in_body_fresh :
+  forall e t0 ops t,
+    kitty_memo e = false ->
+    wf_sizes t0 (ops ++ [GetTscResize t; GetTsc]) = true ->
+    px_ok e t0 (ops ++ [GetTscResize t; GetTsc]) ->
+    let s := run e t0 ops in
+    let s1 := fst (step e s (GetTscResize t)) in
+    snd (step e s1 GetTsc) = view_ratio (fresh_tsc (tm s1))
+    /\ (n_tsc s1 = S (n_tsc s) ->
+        tm s1 = t /\ snd (step e s1 GetTsc) = view_ratio (fresh_tsc t)).
+Proof. exact call_after_resize_in_body_fresh. Qed.
+Print Assumptions C15_call_after_resize_in_body_fresh.
+
+(** what such a call leaves behind: nothing changed at all (the entry served it), or the
+    body ran, the terminal is [t] and the entry holds the value under the size read
+    BEFORE the body — the size the value is fresh for *)
+Theorem C15_resize_in_body_entry_keyed_by_old_size :
+  forall s t,
+    let s1 := fst (get_tsc_resize s t) in
+    s1 = s
+    \/ (n_tsc s1 = S (n_tsc s) /\ tm s1 = t
+        /\ tsc s1 = Some (fresh_tsc (tm s), (cols (tm s), rows (tm s)))).
+Proof. exact resize_in_body_cases. Qed.
+Print Assumptions C15_resize_in_body_entry_keyed_by_old_size.
 
 (** a fact derived from a memoised getter (the kitty work-around flag) equals the fact
     derived from a fresh getter call, and from the getter's own current answer *)
